@@ -323,8 +323,12 @@ fn check(a: Adapter, m: &MStyle) -> Result<bool, String> {
         ($conv:expr, $expect:expr, $render:expr, $skip_render:expr) => {{
             let got = $conv;
             let exp = $expect;
-            // "colour not set" and "explicitly the terminal's default colour" are the same request
-            if normal_form(&got) != normal_form(&exp) {
+            // Value level: the converted value must be *equivalent* to the one built from the harness's
+            // own tables through the library's public constructors - equal in normal form, or rendered
+            // by the library to the same bytes (a library may have several values for one request:
+            // indexed colour 1 as AnsiValue(1) or as its named variant, an unset slot or the explicit
+            // default colour, ...)
+            if normal_form(&got) != normal_form(&exp) && $render(&got) != $render(&exp) {
                 return Err(format!("{:?}: [{}] converts to {:?}, expected {:?}", a, m.describe(), got, exp));
             }
             // the render layer is only meaningful where the library renders the
